@@ -971,9 +971,10 @@ class FnEval:
             return self.local_key(o[1][0], reads, depth + 1, bi)
         return ("?", id(o))
 
-    def reads_consistent(self, reads):
+    def reads_consistent(self, reads, own_def=None):
         """All reads of each mutable local see the same value: the reading blocks form a dominance chain and no
-        definition of the local lies on it (between the first and the last read)."""
+        definition of the local lies on it (between the first and the last read).  `own_def` = (local, block, stmt): that
+        one definition is the statement whose right-hand side made the read (`j = j + c`), hence after it."""
         if not reads:
             return True
         if any(b is None for (_l, b) in reads):
@@ -1022,6 +1023,8 @@ class FnEval:
                 between |= (fwd & bwd)
             for d in defs_l:
                 D = d[0]
+                if own_def is not None and own_def == (l, d[0], d[1]):
+                    continue
                 if D in blocks or D in between:
                     return False
         return True
@@ -1394,6 +1397,24 @@ class FnEval:
             return False
         forms = self.ub_linforms(key, reads)
         if not self.reads_consistent(reads):
+            return False
+        for lf in forms:
+            d = dict(lf[0])
+            for k_, v_ in ll[0].items():
+                d[k_] = d.get(k_, 0) - v_
+            if all(v_ == 0 for v_ in d.values()) and lf[1] - ll[1] <= 0:
+                return True
+        return False
+
+    def provably_le_len_key(self, key, reads, len_key, own_def=None):
+        """provably_le_len for an expression key built by the caller (a reaching definition re-expressed)"""
+        if len_key is None:
+            return False
+        ll = self.linform(len_key)
+        if ll is None:
+            return False
+        forms = self.ub_linforms(key, reads)
+        if not self.reads_consistent(reads, own_def):
             return False
         for lf in forms:
             d = dict(lf[0])
